@@ -480,6 +480,36 @@ class Function:
             r = self._returns_flag = bool(rets) and all(b(x.ops[0], frozenset()) for x in rets)
         return r
 
+    def sentinel_loops(self):
+        """loops with an exit test `byte loaded in the loop ==/!= 0` (scan or copy up to a terminator) -> list of loops"""
+        r = getattr(self, '_sentinel_loops', None)
+        if r is not None:
+            return r
+        r = []
+        for L in self.loops:
+            for (b, _) in L['exits']:
+                t = b.term
+                if t.op != 'br' or 'f' not in t.d or not t.ops or t.ops[0].k != 'inst':
+                    continue
+                c = self.insts[t.ops[0].id]
+                if c.op != 'icmp' or c.pred not in ('eq', 'ne'):
+                    continue
+                z = [o for o in c.ops if o.k == 'ci' and o.ival == 0]
+                o_ = [o for o in c.ops if not (o.k == 'ci' and o.ival == 0)]
+                if len(z) != 1 or len(o_) != 1:
+                    continue
+                v = o_[0]
+                for _k in range(3):
+                    i = self.inst_of(v)
+                    if i is not None and i.op in ('sext', 'zext', 'trunc'):
+                        v = i.ops[0]
+                i = self.inst_of(v)
+                if i is not None and i.op == 'load' and i.bits == 8 and i.block in L['blocks']:
+                    r.append(L)
+                    break
+        self._sentinel_loops = r
+        return r
+
     def flag_loops(self):
         """loops one of whose exit tests reads a header phi that carries a 0/1 FLAG computed in the previous iteration
         (`done = is_end(p[i])` ... `while (!done)`).  The fact the flag stands for ("not done => p[i] is not the terminator")
